@@ -205,3 +205,18 @@ Theorem c16_alloc_failure_before_fix_D11_refuted :
   exists t t', inv_table t /\ alloc_param_gen false t (KScalar (1, 1)%Z) 1 = AFail t' /\ ~ inv_table t'.
 Proof. exact alloc_fail_asis_breaks_first_free_l. Qed.
 Print Assumptions c16_alloc_failure_before_fix_D11_refuted.
+
+(* a standard refused because one of its parameter handles is invalid leaves everything unchanged
+   (fix D17; also a C11 clause) *)
+Theorem c16_rejected_standard_unchanged : forall s id v hs ms,
+  st_freed s = false -> get_new s id = Some v ->
+  forallb (vn_check_param (S (length (pt_slots (st_pt s)))) (st_pt s) v) hs = false ->
+  step s (OAddStd id hs ms) = (s, fail_usage).
+Proof. exact rejected_standard_unchanged_l. Qed.
+Print Assumptions c16_rejected_standard_unchanged.
+
+Example c16_rejected_standard_satisfiable :
+  let s := run_state held_script in
+  exists v, get_new s 0 = Some v /\
+  forallb (vn_check_param (S (length (pt_slots (st_pt s)))) (st_pt s) v) [3%Z; 9%Z] = false.
+Proof. exact rejected_standard_example. Qed.
